@@ -5,6 +5,7 @@ CONSTANTS
  Creators = {1}
  Subscribers = {2}
  OtherType = {}
+ MaxPre = 0
  MaxOps = 1
  MaxSends = 4
  MaxServes = 1
